@@ -6,6 +6,7 @@
 import AmiscProofs.IndexExtra
 import AmiscProofs.SparseBridge
 import AmiscModel.Generated.Logic
+import AmiscProps.C02
 
 namespace Amisc.C01
 
@@ -211,5 +212,20 @@ example : (run [1, 2] [[0, 0], [1, 0], [5, 5], [0, 1], [1, 0], [1, 1]]).ctrain.g
     (run [1, 2] [[0, 0], [1, 0], [5, 5], [0, 1], [1, 0], [1, 1]]).ctrain.get [1, 1] = some 1 ∧
     (run [1, 2] [[0, 0], [1, 0], [5, 5], [0, 1], [1, 0], [1, 1]]).ctrain.get [1, 0] = some 0 := by decide
 example : IE [[0, 0], [1, 0], [0, 1]] [0, 0] = -1 := by decide
+
+/-! ### the same statements about the bookkeeping GENERATED from the source (what the driver runs) -/
+
+/-- training-mode weights of the generated bookkeeping are the inclusion–exclusion values of the active set -/
+theorem generated_ctrain_eq_IE (box : Idx) (rs : List Idx) (h : WT box rs) (i : Idx) :
+    (runGen box rs).ctrain.get i =
+      if i ∈ (runGen box rs).active then some (IE (runGen box rs).active i) else none := by
+  rw [C02.generated_run_is_model]; exact ctrain_eq_IE box rs h i
+
+/-- evaluation-mode weights of the generated bookkeeping are the inclusion–exclusion values of active ∪ candidate -/
+theorem generated_ctest_eq_IE (box : Idx) (rs : List Idx) (h : WT box rs) (i : Idx) :
+    (runGen box rs).ctest.get i =
+      if i ∈ (runGen box rs).active ++ (runGen box rs).cand
+      then some (IE ((runGen box rs).active ++ (runGen box rs).cand) i) else none := by
+  rw [C02.generated_run_is_model]; exact ctest_eq_IE box rs h i
 
 end Amisc.C01
